@@ -70,6 +70,7 @@ type Harness struct {
 	Stubs          []string          `json:"stubs,omitempty"`           // declared stubs/assumptions
 	Anchors        []string          `json:"anchors,omitempty"`         // repo functions this harness is meant to execute
 	NoReplay       bool              `json:"no_replay,omitempty"`       // schedule-dependent: native replay not deterministic
+	Tags           []string          `json:"tags,omitempty"`            // extra build tags for loading (e.g. verif: hooks that are only settable with the tag)
 	ReplayAttempts int               `json:"replay_attempts,omitempty"` // native replays to run (any failing run reproduces); for runtime-random choices
 }
 
@@ -236,7 +237,15 @@ func loadProgram(tmp string, hs []Harness) *loaded {
 		overlay[k] = b
 	}
 	// math_big_pure_go: math/big's arithmetic kernels have pure Go bodies instead of assembly stubs
-	cfg := &packages.Config{Mode: packages.LoadAllSyntax, Dir: repoDir, Overlay: overlay, Env: goEnv(), BuildFlags: []string{"-tags=math_big_pure_go"}}
+	tags := "math_big_pure_go"
+	for _, h := range hs {
+		for _, t := range h.Tags {
+			if !strings.Contains(","+tags+",", ","+t+",") {
+				tags += "," + t
+			}
+		}
+	}
+	cfg := &packages.Config{Mode: packages.LoadAllSyntax, Dir: repoDir, Overlay: overlay, Env: goEnv(), BuildFlags: []string{"-tags=" + tags}}
 	seen := map[string]bool{}
 	var pats []string
 	for _, h := range hs {
